@@ -16,6 +16,7 @@ Helper lemmas on `Spec.lpm` are in `Proofs/Lpm.lean`.
 -/
 import DnsVerif.Model.Location
 import DnsVerif.Proofs.Lpm
+import DnsVerif.Props.C03
 
 namespace DnsVerif.Props.C10
 open DnsVerif DnsVerif.Spec DnsVerif.Loc DnsVerif.Lpm
@@ -507,5 +508,143 @@ example : findLocationTop (.cdb true) exStore [0] (some ⟨1, 24, 0, [11, 1, 2, 
 example : findLocationTop (.cdb true) exStore [0] none exResolver = .ok (none, {}) := rfl
 
 /-! ### C10.3 (CDB backend) -/
+
+open DnsVerif.Codec DnsVerif.Rearr in
+theorem to16_length (a : List UInt8) : (to16 a).length = 16 := by
+  unfold to16
+  split
+  · rename_i h; simp [Net.v4Prefix, h]
+  · split
+    · assumption
+    · simp
+
+theorem mapIdOf_length (m : Option Bytes) : (mapIdOf m).length = 2 := by
+  cases m <;> rfl
+
+theorem clientOf_len4 (e : Ecs) :
+    (clientOf e).ipLen4 = true → (clientOf e).ip16.take 12 = Net.v4Prefix := by
+  intro h
+  have h4 : e.addr.length = 4 := by simpa [clientOf] using h
+  show (to16 e.addr).take 12 = Net.v4Prefix
+  unfold to16
+  rw [if_pos h4]
+  simp [Net.v4Prefix]
+
+/-- the two-byte copy of a two-byte location is the location -/
+theorem copy2 {l : Bytes} (h : l.length = 2) : [l.getD 0 0, l.getD 1 0] = l := by
+  match l, h with
+  | [a, b], _ => rfl
+
+open DnsVerif.Codec DnsVerif.Rearr in
+/-- **scope_truthful_cdb**: on the CDB backend (either prefix-set mode), for a name whose
+client-subnet map is `m` (id ≠ `[0,0]`), `EcsLocation` is determined by `Spec.lpm` on the declared
+subnets: with a winner `w` whose location is not `[0,0]` the location is `w.loc` and the echoed
+scope is `w.ones` expressed as the model's byte arithmetic; otherwise the default 24/48 and no
+location. Hypotheses: the store represents the subnet list (`CdbRep`), the list is well formed
+(`SubnetsWF`, incl. W1) with 2-byte locations. -/
+theorem scope_truthful_cdb {s : Store} {subs : List Subnet} (hrep : CdbRep s subs)
+    (hwf : SubnetsWF subs) (hloc : ∀ x ∈ subs, (declOf x).loc.length = 2)
+    (sep : Bool) (q : Bytes) (e : Ecs) (m : Option Bytes)
+    (hm : findMap (.cdb sep) s q [0, 0x38] = .ok m) (hid : mapIdOf m ≠ [0, 0]) :
+    ecsLocation (.cdb sep) s q e =
+      match lpm (subs.map declOf) (mapIdOf m) (isIPv4 (clientOf e)) (ipToNat (to16 e.addr))
+          (C03.reqLen (clientOf e)) with
+      | some w =>
+        if w.loc ≠ [0, 0] then
+          .ok (some { mapID := mapIdOf m, mask := w.ones % 256, locID := w.loc },
+               if e.family = 1 then (w.ones % 256 + 256 - 96) % 256 else w.ones % 256)
+        else .ok (none, if e.family = 2 then 48 else 24)
+      | none => .ok (none, if e.family = 2 then 48 else 24) := by
+  have hg := C03.getLocationCdb_eq_lpm hrep hwf sep (clientOf e) (mapIdOf m) (mapIdOf_length m)
+    (to16_length e.addr) (clientOf_len4 e)
+  have hg' : getLocation (.cdb sep) s (clientOf e) (mapIdOf m) =
+      getLocationCdb s sep (clientOf e) (mapIdOf m) := rfl
+  have hip : (clientOf e).ip16 = to16 e.addr := rfl
+  rw [hip] at hg
+  cases hl : lpm (subs.map declOf) (mapIdOf m) (isIPv4 (clientOf e)) (ipToNat (to16 e.addr))
+      (C03.reqLen (clientOf e)) with
+  | none =>
+    rw [hl] at hg
+    exact ecs_scope_default (.cdb sep) s q e m 0 hm hid (hg'.trans hg)
+  | some w =>
+    rw [hl] at hg
+    obtain ⟨hwm, _⟩ := lpm_some hl
+    obtain ⟨x, hx, rfl⟩ := List.mem_map.1 hwm
+    have h2 := copy2 (hloc x hx)
+    by_cases hz : (declOf x).loc = [0, 0]
+    · simp only [hz, ne_eq, not_true_eq_false, if_false]
+      exact ecs_scope_found_untagged (.cdb sep) s q e m _ _ hm hid (hg'.trans hg) (h2.trans hz)
+    · simp only [ne_eq, hz, not_false_eq_true, if_true]
+      have := ecs_scope_found (.cdb sep) s q e m _ _ hm hid (hg'.trans hg) (by rw [h2]; exact hz)
+      rw [h2] at this
+      exact this
+
+open DnsVerif.Codec DnsVerif.Rearr in
+/-- … and in the regular cases the byte arithmetic is the declared length of the winning subnet
+expressed in the client's family: an IPv4 option (family 1, 4-byte address) is matched only by
+IPv4-family subnets (`96 ≤ ones ≤ 128`), scope `ones − 96 ≤ 32`; for family ≠ 1 the scope is
+`ones ≤ 128` -/
+theorem scope_truthful_cdb_value {subs : List Subnet} (hwf : SubnetsWF subs) {mapID : Bytes} {e : Ecs}
+    {w : SubnetDecl}
+    (hl : lpm (subs.map declOf) mapID (isIPv4 (clientOf e)) (ipToNat (to16 e.addr))
+      (C03.reqLen (clientOf e)) = some w) :
+    (e.family = 1 → e.addr.length = 4 →
+      (w.ones % 256 + 256 - 96) % 256 = w.ones - 96 ∧ w.ones - 96 ≤ 32 ∧ 96 ≤ w.ones) ∧
+    (w.ones % 256 = w.ones ∧ w.ones ≤ 128) := by
+  obtain ⟨hwm, hq, _⟩ := lpm_some hl
+  obtain ⟨x, hx, rfl⟩ := List.mem_map.1 hwm
+  have hle : (declOf x).ones ≤ 128 := hwf.ones_le x hx
+  refine ⟨fun _ h4 => ?_, by omega, hle⟩
+  have hv4 : isIPv4 (clientOf e) = true := by
+    unfold isIPv4 clientOf
+    simp [h4]
+  have hfam : (declOf x).isV4 = true := by rw [hq.2.1, hv4]
+  unfold SubnetDecl.isV4 at hfam
+  rw [Bool.and_eq_true, decide_eq_true_iff] at hfam
+  have := hfam.2
+  omega
+
+open DnsVerif.Codec DnsVerif.Rearr in
+/-- **scope_truthful_rdb**: the same on the RocksDB backends (v1 or v2 key layout — only `FindMap`
+differs), from `C03.rearrange_lpm_store`: `S` are the declared subnets of the name's client-subnet
+map (W0–W3), the store holds the range points `Rearrange()` produced for it (`RdbRep`), the client
+address is masked to its prefix length (W4). -/
+theorem scope_truthful_rdb {S : List SubnetDecl} (hwf : SubsWF S) (hne : S ≠ [])
+    (b : Backend) (hb : b = .rdbV1 ∨ b = .rdbV2) (s : Store) (q : Bytes) (e : Ecs) (m : Option Bytes)
+    (hm : findMap b s q [0, 0x38] = .ok m) (hid : mapIdOf m ≠ [0, 0])
+    (hS : ∀ x ∈ S, x.mapID = mapIdOf m)
+    (hrep : ∀ P, rearrange (addAll S) = some P → RdbRep s (mapIdOf m) P)
+    (h16 : (maskedClientIP (clientOf e)).length = 16)
+    (hal : ipToNat (maskedClientIP (clientOf e)) % 2 ^ (128 - reqOf (clientOf e)) = 0) :
+    ecsLocation b s q e =
+      match lpm S (mapIdOf m) (isV4Addr (ipToNat (maskedClientIP (clientOf e))))
+          (ipToNat (maskedClientIP (clientOf e))) (reqOf (clientOf e)) with
+      | some w =>
+        if w.loc ≠ [0, 0] then
+          .ok (some { mapID := mapIdOf m, mask := w.ones % 256, locID := w.loc },
+               if e.family = 1 then (w.ones % 256 + 256 - 96) % 256 else w.ones % 256)
+        else .ok (none, if e.family = 2 then 48 else 24)
+      | none => .ok (none, if e.family = 2 then 48 else 24) := by
+  obtain ⟨P, hP, hlk⟩ := C03.rearrange_lpm_store hwf hne (mapIdOf_length m) hS
+  have hg := hlk s (hrep P hP) (clientOf e) h16 hal
+  have hg' : getLocation b s (clientOf e) (mapIdOf m) = getLocationRdb s (clientOf e) (mapIdOf m) := by
+    rcases hb with rfl | rfl <;> rfl
+  unfold lpmRes at hg
+  cases hl : lpm S (mapIdOf m) (isV4Addr (ipToNat (maskedClientIP (clientOf e))))
+      (ipToNat (maskedClientIP (clientOf e))) (reqOf (clientOf e)) with
+  | none =>
+    rw [hl] at hg
+    exact ecs_scope_default b s q e m 0 hm hid (hg'.trans hg)
+  | some w =>
+    rw [hl] at hg
+    obtain ⟨hwm, _⟩ := lpm_some hl
+    have h2 := copy2 (hwf.loc_len w hwm)
+    by_cases hz : w.loc = [0, 0]
+    · simp only [hz, ne_eq, not_true_eq_false, if_false]
+      exact ecs_scope_found_untagged b s q e m _ _ hm hid (hg'.trans hg) (h2.trans hz)
+    · simp only [ne_eq, hz, not_false_eq_true, if_true]
+      have := ecs_scope_found b s q e m _ _ hm hid (hg'.trans hg) (by rw [h2]; exact hz)
+      rw [h2] at this
+      exact this
 
 end DnsVerif.Props.C10
